@@ -97,6 +97,7 @@ const (
 	OFEq
 	OFIsNaN
 	OFIsInf
+	OFIsNeg
 	OFFromSBV // P = target width
 	OFFromUBV
 	OFToSBV // P = target width (RTZ)
@@ -113,7 +114,7 @@ var opNames = map[Op]string{
 	OBAnd: "bvand", OBOr: "bvor", OBXor: "bvxor", OShl: "bvshl", OLshr: "bvlshr", OAshr: "bvashr", ONeg: "bvneg", OBNot: "bvnot",
 	OUlt: "bvult", OUle: "bvule", OSlt: "bvslt", OSle: "bvsle",
 	OStrLt: "str.<", OStrLe: "str.<=", OStrCat: "str.++",
-	OFNeg: "fp.neg", OFAbs: "fp.abs", OFLt: "fp.lt", OFLe: "fp.leq", OFEq: "fp.eq", OFIsNaN: "fp.isNaN", OFIsInf: "fp.isInfinite",
+	OFNeg: "fp.neg", OFAbs: "fp.abs", OFLt: "fp.lt", OFLe: "fp.leq", OFEq: "fp.eq", OFIsNaN: "fp.isNaN", OFIsInf: "fp.isInfinite", OFIsNeg: "fp.isNegative",
 	OFMin: "fp.min", OFMax: "fp.max", OFToBits: "fp.to_ieee_bv",
 }
 
@@ -607,6 +608,9 @@ func (b *Builder) FBin(op Op, x, y *Term) *Term {
 	return b.mk(&Term{Op: op, Sort: x.Sort, Args: []*Term{x, y}})
 }
 func (b *Builder) FCmp(op Op, x, y *Term) *Term {
+	if op == OFEq && x.ID > y.ID {
+		x, y = y, x // fp.eq is symmetric
+	}
 	if x.IsConst() && y.IsConst() {
 		a, c := fval(x), fval(y)
 		switch op {
@@ -632,11 +636,17 @@ func (b *Builder) FUn(op Op, x *Term) *Term {
 			return b.BoolC(math.IsNaN(a))
 		case OFIsInf:
 			return b.BoolC(math.IsInf(a, 0))
+		case OFIsNeg:
+			return b.BoolC(math.Signbit(a) && !math.IsNaN(a))
 		}
 	}
 	s := x.Sort
-	if op == OFIsNaN || op == OFIsInf {
+	if op == OFIsNaN || op == OFIsInf || op == OFIsNeg {
 		s = Bool
+	}
+	if op == OFAbs && x.Op == OFSub && x.Args[0].ID > x.Args[1].ID {
+		// IEEE identity under round-to-nearest: x-y = -(y-x), hence |x-y| = |y-x| (trusted base; keeps symmetric code syntactically symmetric)
+		x = b.mk(&Term{Op: OFSub, Sort: x.Sort, Args: []*Term{x.Args[1], x.Args[0]}})
 	}
 	return b.mk(&Term{Op: op, Sort: s, Args: []*Term{x}})
 }
